@@ -432,7 +432,7 @@ func fpClass(c *fpCase, fields map[string][]int) string {
 	return fmt.Sprintf("u%d/%s/%s", w, c.G, sub)
 }
 
-func eqInts(a, b []int) bool {
+func eqInts20(a, b []int) bool {
 	if len(a) != len(b) {
 		return false
 	}
@@ -474,7 +474,7 @@ func replayC20(env *Env) {
 		sort.Strings(names)
 		badFlag := map[string]bool{}
 		for _, f := range names {
-			if strings.HasSuffix(f, "p") && !isDC(c.X[f]) && !eqInts(c.X[f], o[f]) {
+			if strings.HasSuffix(f, "p") && !isDC(c.X[f]) && !eqInts20(c.X[f], o[f]) {
 				badFlag[strings.TrimSuffix(f, "p")] = true
 			}
 		}
@@ -484,7 +484,7 @@ func replayC20(env *Env) {
 				continue
 			}
 			got, ok := o[f]
-			if !ok || !eqInts(exp, got) {
+			if !ok || !eqInts20(exp, got) {
 				env.fail(fmt.Sprintf("C20.u%d.%s", 8*len(c.A), f), cls,
 					fmt.Sprintf("%s: a=%s b=%s n=%d: %s observed %s, specification %s", c.G,
 						hexOf(c.A), hexOf(c.B), c.N, f, showField(got), showField(exp)), c)
